@@ -167,7 +167,14 @@ def parse_tags(text):
     # assert isinstance(text, unicode)
     if not text:
         return []
-    return Parser(variant="tags").parse_tags(text)
+    parser = Parser(variant="tags")
+    tags = []
+    for line in text.splitlines():
+        parser.line += 1
+        line = line.strip()
+        if line and not line.startswith("#"):
+            tags.extend(parser.parse_tags(line))
+    return tags
 
 
 # -----------------------------------------------------------------------------
@@ -860,7 +867,9 @@ class Parser(object):
         :param line:   Line with one/more tags to process.
         :raise ParserError: If syntax error is detected.
         """
-        assert line.startswith("@")
+        if not line.startswith("@"):
+            message = u"tag: %s (line: %s)" % (line.split()[0], line)
+            raise ParserError(message, self.line, self.filename)
         tags = []
         for word in line.split():
             if word.startswith("@"):
